@@ -677,14 +677,19 @@ pub fn check_history(sum: &mut Summary) {
         let (sites, problems) = crate::inventory::scan("/repo");
         let modelled: std::collections::BTreeSet<String> = crate::inventory::MODELLED_SITES.iter().map(|s| s.to_string()).collect();
         sum.extra.insert("hash_iteration_sites_in_source".into(), json!(sites.iter().collect::<Vec<_>>()));
-        // a site is `file:function:expression`; a private function may be renamed or the loop moved within the file
-        // without changing what is iterated, so the comparison is on `file:expression` (with multiplicity)
+        // a site is `file:function:expression`; a private function may be renamed or moved to another file without
+        // changing what is iterated, so the comparison is on the iterated map (with multiplicity)
         let shape = |set: &std::collections::BTreeSet<String>| -> Vec<String> {
             let mut v: Vec<String> = set
                 .iter()
                 .map(|s| {
                     let parts: Vec<&str> = s.splitn(3, ':').collect();
-                    if parts.len() == 3 { format!("{}:{}", parts[0], parts[2]) } else { s.clone() }
+                    // `for x in m`, `m.iter()`, `m.into_iter()`, `m.keys()` … all walk `m` in hash order: one site `m`
+                    let what = if parts.len() == 3 { parts[2] } else { s.as_str() };
+                    match what.strip_prefix("for-in ") {
+                        Some(m) => m.to_string(),
+                        None => what.rsplit_once('.').map(|(m, _)| m.to_string()).unwrap_or_else(|| what.to_string()),
+                    }
                 })
                 .collect();
             v.sort();
